@@ -79,10 +79,39 @@ func (s *seqRT) ruleGenHistOpt(withPanics bool) {
 	chainBad := map[string][]string{}
 	in := s.interp()
 	in.MaxDepth = 14
-	it, st0, ok := s.construct(in, "SEQ.GEN", "Start", []AV{Sym{Name: "seq", NN: true}})
-	if !ok {
+	// The generator body is modelled with the package's own public combinator: "the body yields y" is a run of
+	// BindRecv(y, nx) on the coroutine state and continuation the body was given, "the rest of the body" is the
+	// Seq the thunk nx returns when the runtime resumes it. How a pending step is represented (a pointer in the
+	// coroutine state, a value and a flag, ...) is the package's business. The BindRecv values are built first,
+	// in the state everything else starts from.
+	bindFn := s.w.FuncOpt(pathSeq, "BindRecv")
+	if bindFn == nil {
+		undecided("seq.BindRecv not found (the combinator a yield is lowered to)")
+	}
+	c.fn("seq.BindRecv")
+	stB := newState()
+	var binds []AV
+	for i := 1; i <= genHistDepth+2; i++ {
+		outs := in.Run(stB, bindFn, []AV{Sym{Name: fmt.Sprintf("y%d", i), Uniq: true}, Sym{Name: fmt.Sprintf("nx%d", i), NN: true}}, nil)
+		if len(outs) != 1 || outs[0].Panicked || len(outs[0].Ret) != 1 {
+			undecided("seq.BindRecv is not a single straight-line construction")
+		}
+		stB = outs[0].St
+		binds = append(binds, outs[0].Ret[0])
+	}
+	startFn := s.w.Func(pathSeq, "Start")
+	c.fn("seq.Start")
+	souts := in.Run(stB, startFn, []AV{Sym{Name: "seq", NN: true}}, nil)
+	if len(souts) != 1 || souts[0].Panicked || len(souts[0].Ret) != 1 {
+		c.bad("SEQ.GEN", "seq.Start constructor", s.w.FnPos(startFn), fmt.Sprintf("constructor has %d abstract paths / panics: expected a single straight-line construction", len(souts)))
 		return
 	}
+	for _, e := range souts[0].St.Events[len(stB.Events):] {
+		if e.Kind == "call" && e.Fn == nil {
+			c.bad("SEQ.LAZY", "seq.Start", s.w.Pos(e.Pos), "constructor calls a caller-supplied function value while building the iterator ("+e.String()+"): code would run before the iterator is advanced", souts[0].St.TraceStrings()...)
+		}
+	}
+	it, st0 := souts[0].Ret[0], souts[0].St
 	d, isDyn := it.(Dyn)
 	pt, _ := func() (*types.Pointer, bool) {
 		if !isDyn {
@@ -113,7 +142,6 @@ func (s *seqRT) ruleGenHistOpt(withPanics bool) {
 	pos := s.w.FnPos(methods["MoveNext"])
 
 	// the generator body and its resumptions
-	var k0 AV
 	yields := func(st *State) int {
 		n := 0
 		for _, l := range st.Labels {
@@ -130,46 +158,15 @@ func (s *seqRT) ruleGenHistOpt(withPanics bool) {
 		}
 		name := epochRe.ReplaceAllString(sy.Name, "")
 		n := yields(cc.St) + 1
-		mkStep := func(stepT types.Type) AV {
-			st, _ := stepT.Underlying().(*types.Struct)
-			if st == nil {
-				undecided("the pending step is not a struct")
-			}
-			fields := map[string]AV{}
-			for i := 0; i < st.NumFields(); i++ {
-				f := st.Field(i)
-				if _, isFn := f.Type().Underlying().(*types.Signature); isFn {
-					fields[f.Name()] = Sym{Name: fmt.Sprintf("nx%d", n), NN: true}
-				} else {
-					fields[f.Name()] = Sym{Name: fmt.Sprintf("y%d", n), Uniq: true}
-				}
-			}
-			return cc.St.alloc(&Obj{T: stepT, Kind: 's', Fields: fields, Site: "oracle step"})
-		}
 		switch {
-		case name == "seq" && len(cc.Args) == 2:
-			k0 = cc.Args[1]
-			co := cc.St.Obj(cc.Args[0])
-			if co == nil || co.Kind != 's' {
-				undecided("the generator body is not started with a coroutine state allocated by Start")
+		case (name == "seq" || strings.HasPrefix(name, "sq")) && len(cc.Args) == 2:
+			// a piece of the generator body runs on (c, k): it yields (a run of BindRecv(y, nx) on the same c and
+			// k) or returns through k
+			if n > len(binds) {
+				undecided("more yields on one history than prepared")
 			}
-			cst, _ := co.T.Underlying().(*types.Struct)
-			var stepField string
-			var stepT types.Type
-			if cst != nil {
-				for i := 0; i < cst.NumFields(); i++ {
-					if p, ok := cst.Field(i).Type().Underlying().(*types.Pointer); ok {
-						stepField, stepT = cst.Field(i).Name(), p.Elem()
-					}
-				}
-			}
-			if stepField == "" {
-				undecided("the coroutine state has no pending-step field")
-			}
-			ref := mkStep(stepT)
-			coRef := cc.Args[0]
 			ans := []Answer{
-				{Label: "yield", Do: func(st *State) { st.Obj(coRef).Fields[stepField] = ref }},
+				{Label: "yield", Invoke: []Invocation{{Fn: binds[n-1], Args: []AV{cc.Args[0], cc.Args[1]}}}},
 				{Label: "return", Invoke: []Invocation{{Fn: cc.Args[1], Args: []AV{Sym{Name: "sig"}, Sym{Name: "res", Uniq: true}}}}},
 			}
 			if withPanics {
@@ -177,24 +174,8 @@ func (s *seqRT) ruleGenHistOpt(withPanics bool) {
 			}
 			return ans
 		case strings.HasPrefix(name, "nx") && len(cc.Args) == 1:
-			sig, _ := cc.Instr.Common().Value.Type().Underlying().(*types.Signature)
-			if sig == nil || sig.Results().Len() != 1 {
-				undecided("a resumption is not a function returning the next step")
-			}
-			p, _ := sig.Results().At(0).Type().Underlying().(*types.Pointer)
-			if p == nil {
-				undecided("a resumption does not return a pointer to the next step")
-			}
-			ref := mkStep(p.Elem())
-			ret := Answer{Label: "return", Ret: []AV{Nil{}}}
-			if k0 != nil {
-				ret.Invoke = []Invocation{{Fn: k0, Args: []AV{Sym{Name: "sig"}, Sym{Name: "res", Uniq: true}}}}
-			}
-			ans := []Answer{{Label: "yield", Ret: []AV{ref}}, ret}
-			if withPanics {
-				ans = append(ans, Answer{Label: "panic", Panic: true})
-			}
-			return ans
+			// the runtime resumes the body with a received value: the thunk hands back the rest of the body
+			return []Answer{{Ret: []AV{Sym{Name: "sq" + strings.TrimPrefix(name, "nx"), NN: true}}}}
 		}
 		return nil
 	}
@@ -254,6 +235,9 @@ func (s *seqRT) ruleGenHistOpt(withPanics bool) {
 						switch e.Kind {
 						case "call":
 							if sy, ok := e.Callee.(Sym); ok && e.Fn == nil {
+								if strings.HasPrefix(epochRe.ReplaceAllString(sy.Name, ""), "sq") {
+									continue // the rest of the body, run right after its thunk was resumed
+								}
 								a := ""
 								if len(e.Args) == 1 {
 									a = render(e.Args[0])
